@@ -326,6 +326,30 @@ def _rank_rule(res, f, fa, iv, tag, acc, n, loc):
                     if okr and okg and okv:
                         found = True
                         d = "table[i] = counter under bit test on %s" % show(acc, fa.names)
+                    # alternative: for (rank, id) in mask_to_id_vec_uN(mask).into_iter().enumerate() { table[id - 1] = rank }
+                    #   (the id list is ascending and complete by S-asc, so the position of an id is its rank)
+                    la, lc = lin(idx)
+                    if not found and lc == -1 and len(la) == 1:
+                        (it, q), = list(la)
+                        x = it
+                        if x.op == "cast":
+                            x = x.args[1]
+                        vv = v.args[1] if v.op == "cast" else v
+                        if q == 1 and x.op == "field" and x.args[1] == 1 and vv.op == "field" and vv.args[1] == 0 and vv.args[0] is x.args[0] \
+                                and x.args[0].op == "field" and x.args[0].args[0].op == "downcast" and x.args[0].args[0].args[0].op == "call" \
+                                and x.args[0].args[0].args[0].args[0] == "<core::iter::Enumerate<I> as core::iter::Iterator>::next":
+                            src = libmodel.iterator_source(x.args[0].args[0].args[0], fa)
+                            if src is not None:
+                                y = src[0]
+                                chain = []
+                                while y.op == "call" and y.args[1] and y.args[0] in (libmodel.INTO_ITER, "core::iter::Iterator::enumerate",
+                                                                                   "<tinyvec::ArrayVec<A> as core::iter::IntoIterator>::into_iter"):
+                                    chain.append(y.args[0])
+                                    y = y.args[1][0]
+                                if y.op == "call" and y.args[0] == "msg::mask_to_id_vec_u%d" % n and y.args[1] and y.args[1][0] is acc \
+                                        and chain.count("core::iter::Iterator::enumerate") == 1:
+                                    found = True
+                                    d = "table[id - 1] = position of id in mask_to_id_vec_u%d(%s) (ascending by S-asc)" % (n, show(acc, fa.names))
     res.ob("M-cell", "%s | rank table of the %d-bit mask is filled by an ascending scan (bit n-1-i <-> entry i)" % (tag, n), found, d, loc)
 
 
@@ -437,6 +461,12 @@ def rule_decode(prog, res, floor=49):
                             okg = c2 == n - 1 and len(l2) == 1 and list(l2)[0][1] == -1
                 ok = k == 1 and rng_ok and okg
                 d = "pushes %s under the bit test" % show(v, ga.names)
+        if not ok:
+            okk, dd = _idvec_semantics(prog, g, n)
+            if okk:
+                ok, d = True, dd
+            elif dd:
+                d = (d + " ; " if d else "") + dd
         res.ob("S-asc", "%s | ids are rebuilt in ascending order: for i in 0..%d, bit (%d - i) set => push i + 1" % (name, n, n - 1), ok, d, g.loc, sample=d)
     g = prog.fn("msg::cell_mask_id_vec")
     if g is None:
@@ -473,3 +503,95 @@ def rule_decode(prog, res, floor=49):
                 ok = okdiv and okvec
                 d = "pushes (sat_vec[%s], sig_vec[%s])" % (show(si, ga.names), show(gi, ga.names))
     res.ob("S-asc", "cell_mask_id_vec | cells are rebuilt row-major: cell i -> (sat_vec[i / |sig|], sig_vec[i % |sig|])", ok, d, g.loc, sample=d)
+
+
+def _idvec_semantics(prog, g, n):
+    """Abstract interpretation of mask_to_id_vec_uN written with iterator adaptors (`(1..=N).filter(|id| bit test).collect()`):
+    the result is a guarded list [(condition, id)]; it must be [(mask bit N-id, id) for id = 1..N] in this order."""
+    import bitsem
+    from bitsem import Interp, State, BV, Ref, Adt, Undecided, Panic, bf_atom, bf_op, RangeIt, Closure
+
+    class FilterIt(object):
+        def __init__(self, inner, clo):
+            self.inner, self.clo = inner, clo
+
+    class VecInterp(Interp):
+        def compare(self, op, x, y):
+            if (isinstance(x, BV) or isinstance(y, BV)) and op in ("Eq", "Ne"):
+                w = x.w if isinstance(x, BV) else y.w
+                xb, yb = self.as_bv(x, w), self.as_bv(y, w)
+                if xb.concrete() is None or yb.concrete() is None:
+                    acc = 1
+                    for a, b in zip(xb.bits, yb.bits):
+                        eq = bf_op("not", bf_op("xor", a, b))
+                        acc = bf_op("and", acc, eq)
+                    if op == "Ne":
+                        acc = bf_op("not", acc)
+                    return BV([acc], False)
+            return Interp.compare(self, op, x, y)
+
+        def binop(self, st, op, x, y, tya, dest_ty):
+            if op == "Rem" and isinstance(x, BV) and isinstance(y, int) and y > 0 and (y & (y - 1)) == 0:
+                k = y.bit_length() - 1
+                return BV(list(x.bits[:k]) + [0] * (x.w - k), x.signed)
+            return Interp.binop(self, st, op, x, y, tya, dest_ty)
+
+        def call(self, st, t):
+            c = t.get("resolved") or t["callee"]
+            if c == "core::ops::RangeInclusive::<Idx>::new":
+                a = [self.operand(st, x) for x in t["args"]]
+                return RangeIt(a[0], a[1], True)
+            if c == "core::iter::Iterator::filter":
+                a = [self.operand(st, x) for x in t["args"]]
+                if isinstance(a[1], Closure):
+                    inner = a[0]
+                    if isinstance(inner, Adt) and (inner.path or "").startswith("core::ops::Range"):
+                        inner = RangeIt(inner.fields[0], inner.fields[1], "Inclusive" in inner.path)
+                    return FilterIt(inner, a[1])
+            if c.endswith("Iterator::collect"):
+                a = [self.operand(st, x) for x in t["args"]]
+                it = a[0]
+                out = []
+                if isinstance(it, FilterIt) and isinstance(it.inner, RangeIt):
+                    r = it.inner
+                    if not (isinstance(r.lo, int) and isinstance(r.hi, int)):
+                        raise Undecided("range with symbolic bounds")
+                    hi = r.hi if r.inclusive else r.hi - 1
+                    for e in range(r.lo, hi + 1):
+                        st.locals[-100] = e
+                        gd = self.exec_closure(st, it.clo, [Ref(("local", -100, (), st.frame))])
+                        if isinstance(gd, BV):
+                            gd = gd.bits[0]
+                        out.append((gd, e))
+                    return ("gvec", out)
+                raise Undecided("collect of an unmodelled iterator")
+            m = re.fullmatch(r"<[ui]\d+ as core::ops::(Sub|Add)<&[ui]\d+>>::(sub|add)", c)
+            if m:
+                a = [self.operand(st, x) for x in t["args"]]
+                y = self._get(st, a[1].loc) if isinstance(a[1], Ref) else a[1]
+                ty = self.place_ty(t["dest"])
+                r = self.binop(st, m.group(1) + "WithOverflow", a[0], y, ty, None)
+                if r.fields[1]:
+                    raise Panic("overflow in %s" % c)
+                return r.fields[0]
+            return Interp.call(self, st, t)
+
+    it = VecInterp(prog, g, "idvec", 0, 0, n)
+    st = State()
+    st.locals[1] = BV([bf_atom(("M", k)) for k in range(n)], False)
+    try:
+        it.run(st)
+    except (Undecided, Panic) as e:
+        return False, "abstract interpretation: %s" % e
+    if len(it.results) != 1:
+        return False, "abstract interpretation: %d paths" % len(it.results)
+    ret = it.results[0][1]
+    if not (isinstance(ret, tuple) and ret and ret[0] == "gvec"):
+        return False, "abstract interpretation: result is not a collected list"
+    want = [(bf_atom(("M", n - i)), i) for i in range(1, n + 1)]
+    if ret[1] == want:
+        return True, "abstract interpretation of the adaptor chain: result = [id for id in 1..=%d if mask bit (%d - id)] in ascending order" % (n, n)
+    for (g1, e1), (g2, e2) in zip(ret[1], want):
+        if (g1, e1) != (g2, e2):
+            return False, "abstract interpretation: element %s is kept under %s, expected id %s under mask bit %d" % (e1, bitsem.bit_str(g1), e2, n - e2)
+    return False, "abstract interpretation: %d elements, expected %d" % (len(ret[1]), n)
